@@ -441,4 +441,107 @@ func init() {
 				r.Fail(f.Name()+":base-included", f.Decl.Pos(), nil, "the base level's tables are not added to the merge")
 			}
 		}})
+
+	register(&Obligation{ID: "C18.g", Props: []string{"C18", "C17", "C07"}, Template: "aliasing",
+		Desc: "the table writer's entry buffer hands out lazy views of its backing array (all / flushChunk return slices.Values over entries or a prefix of it, consumed later by TableWriter.Write): while such a view is outstanding the backing array is not written in place - entries is only appended to, re-sliced forward, or replaced by a fresh slice",
+		Run: func(r *Run) {
+			entries := r.P.Field("dkv/sst", "entryBuffer", "entries")
+			pkg := r.P.Pkg("dkv/sst")
+			info := pkg.TypesInfo
+			// does a view alias the array? (a function of entryBuffer returns slices.Values(x) with x the
+			// field or a slice of it, not a clone)
+			aliases := false
+			isEntries := func(e ast.Expr) bool {
+				e = deref(info, e)
+				if prog.SelField(info, e) == entries {
+					return true
+				}
+				if sl, ok := ast.Unparen(e).(*ast.SliceExpr); ok && prog.SelField(info, sl.X) == entries {
+					return true
+				}
+				return false
+			}
+			for _, file := range pkg.Syntax {
+				inspect(file, func(nd ast.Node) bool {
+					if call, ok := nd.(*ast.CallExpr); ok {
+						if c, ok := isCallToNamed(info, call, "slices", "Values"); ok && len(c.Args) == 1 && isEntries(c.Args[0]) {
+							aliases = true
+							r.Site(c.Pos(), "lazy view of entryBuffer.entries")
+						}
+					}
+					return true
+				})
+			}
+			if !aliases {
+				r.Note("entryBuffer no longer hands out views that alias its array")
+				return
+			}
+			n := 0
+			for _, fa := range r.fieldAccesses(entries) {
+				if prog.IsTestSupport(fa.Use.Pkg.PkgPath) || !fa.Write {
+					continue
+				}
+				n++
+				where := r.scopeName(fa.Use.Scope)
+				r.Site(fa.Use.Ident.Pos(), "entryBuffer.entries "+fa.Kind+" in "+where)
+				path := r.P.PathTo(fa.Use.File, fa.Use.Ident.Pos(), fa.Use.Ident.End())
+				ok := false
+				why := fa.Kind
+				for k := len(path) - 1; k >= 0 && !ok; k-- {
+					switch x := path[k].(type) {
+					case *ast.KeyValueExpr:
+						ok = true // constructor literal
+					case *ast.AssignStmt:
+						for i, l := range x.Lhs {
+							if prog.SelField(info, l) != entries || i >= len(x.Rhs) {
+								continue
+							}
+							rhs := deref(info, x.Rhs[i])
+							switch y := rhs.(type) {
+							case *ast.SliceExpr:
+								// b.entries = b.entries[k:] moves forward; the array is untouched
+								ok = prog.SelField(info, y.X) == entries
+							case *ast.CallExpr:
+								if id, isID := y.Fun.(*ast.Ident); isID && id.Name == "append" && len(y.Args) >= 1 {
+									// appending to the buffer itself writes beyond every view handed out so far;
+									// appending to a prefix of it (entries[:0]) overwrites the view
+									ok = prog.SelField(info, y.Args[0]) == entries
+									if !ok {
+										why = "append onto a sub-slice of entries"
+									}
+								} else if id, isID := y.Fun.(*ast.Ident); isID && id.Name == "make" {
+									ok = true
+								} else if _, isClone := isCallToNamed(info, y, "slices", "Clone"); isClone {
+									ok = true
+								}
+							default:
+								if tv, has := info.Types[rhs]; has && tv.IsNil() {
+									ok = true
+								}
+							}
+						}
+						k = -1
+					}
+				}
+				if !ok {
+					r.Fail("entryBuffer.entries-write<-"+where, fa.Use.Ident.Pos(), nil, "entryBuffer.entries is written in place (%s) in %s while chunk views handed to TableWriter.Write still alias the array: the entries of a table being written are replaced by later ones (keys lost from the compaction output, others duplicated)", why, where)
+				}
+			}
+			if n < 2 {
+				r.Error("floor: %d writes of entryBuffer.entries (3 confirmed by hand)", n)
+			}
+			// copy(b.entries..., ...) is an in-place write too
+			for _, file := range pkg.Syntax {
+				inspect(file, func(nd ast.Node) bool {
+					call, ok := nd.(*ast.CallExpr)
+					if !ok || len(call.Args) != 2 {
+						return true
+					}
+					if id, isID := call.Fun.(*ast.Ident); isID && id.Name == "copy" && isEntries(call.Args[0]) {
+						r.Fail("entryBuffer.entries-copy", call.Pos(), nil, "copy into entryBuffer.entries overwrites chunk views that are still being written")
+					}
+					return true
+				})
+			}
+		}})
 }
